@@ -125,6 +125,20 @@ class Report:
             self.error('anchor vanished: rule %s matched %d %s (< %d '
                        'confirmed by hand)' % (rule, n, what, minimum))
 
+    def gate(self, program):
+        """a violation in code that uses an idiom the rules were not
+        confirmed against (sa/idioms.py) is undecided, not asserted"""
+        from . import idioms
+        for o in self.obls:
+            if o.status != VIOLATED:
+                continue
+            why = idioms.unconfirmed(program, o.rule, o.where, o.loc)
+            if why:
+                o.status = UNKNOWN
+                o.what = ('not asserted - %s, an idiom the pinned tree does '
+                          'not have and rule %s was not confirmed against; '
+                          'what the rule saw: %s' % (why, o.rule, o.what))
+
     # ------------------------------------------------------------- finishing
     def finish(self, resolver=None) -> int:
         known = load_known()
